@@ -284,7 +284,11 @@ def serve_facts(sr):
     m = re.search(r"let\s+reader_result\s*=\s*\{", hc)
     if m:
         after = norm(hc[match_brace(hc, m.end() - 1):])
-        f["wsDrainOnExit"] = bool(re.match(r"; let _ = shutdown_tx\.send\(\(\)\); let writer_result = match writer_guard\.await \{.*\}; reader_result\.and\(writer_result\)$", after))
+        blk = norm(hc[m.end():match_brace(hc, m.end() - 1) - 1])
+        # the block's value is the select: a cancelled connection token ends the reader like a clean end (falls through
+        # to the drain), it does not leave the function
+        falls = bool(re.search(r"tokio::select! \{ r = reader_task\(ws_reader, &config\.router, conn, offreader_sem\) => r, _ = conn_token\.cancelled\(\) => Ok\(\(\)\),? \}$", blk)) and not re.search(r"\breturn\b", blk)
+        f["wsDrainOnExit"] = falls and bool(re.match(r"; let _ = shutdown_tx\.send\(\(\)\); let writer_result = match writer_guard\.await \{.*\}; reader_result\.and\(writer_result\)$", after))
     else:
         f["wsDrainOnExit"] = False
     return f
